@@ -647,7 +647,7 @@ def merge(chk, stream, idx, res):
     for k, v in res['stats'].items():
         if k.startswith('FAIL:'):
             continue
-        chk.stat(f'{stream}:{k}', v)
+        chk.stat(k[1:] if k.startswith('@') else f'{stream}:{k}', v)
     for key, what, case in res['fails']:
         chk.fail(key, what, case)
     for mm in res['mism']:
@@ -668,12 +668,12 @@ def judge(res, info, batch, stream, triples, top, gtop, epi, F=None, exp=None, c
     g = build_graph({'triples': triples, 'gtop': gtop, 'epidata': epi, 'copy': copy_mode})
     tag, fails, cfg, s = evaluate(info, g, top, F, exp, zero_key)
     res.n += 1
-    res.stats[f'{F["verdict"]}/{tag}'] += 1
+    res.stats[f'@{stream}:{F["verdict"]}/{tag}'] += 1
     if cfg[0] == 'layout':
-        res.stats[f'layout-kind-{cfg[1]}'] += 1
+        res.stats[f'@{stream}:layout-kind-{cfg[1]}'] += 1
     for key, what in fails:
         if key.startswith('SOFT:'):
-            res.stats[key[5:]] += 1
+            res.stats[f'@{stream}:{key[5:]}'] += 1
         else:
             res.fail(key, what, case)
     if want_key:
@@ -1093,7 +1093,7 @@ def run(chk):
                 items.append((exe, model, kind, base, True, False, 0, rng.getrandbits(32)))
         else:   # 4 triples: 5-list alphabet (no double push)
             for model in (['default'] if quick else MODEL_NAMES):
-                items.append((exe, model, kind, base, False, True, 6 if quick else 0, rng.getrandbits(32)))
+                items.append((exe, model, kind, base, False, True, 3 if quick else 0, rng.getrandbits(32)))
     if not quick:
         R = [':ARG0', ':ARG1-of']
         for e1 in [('a', R[0], 'b'), ('b', R[1], 'a')]:
@@ -1119,7 +1119,7 @@ def run(chk):
     run_stream(chk, 'arb-exh', arbexh_worker, items)
 
     chk.exhaustive = False     # exhaustive only up to the stated size bound; the random streams are samples
-    chk.notes.append('the exh-* streams enumerate their stated family completely (quick: 4-triple graphs use 6 of the '
+    chk.notes.append('the exh-* streams enumerate their stated family completely (quick: 4-triple graphs use 3 of the '
                      '24 orders); everything else is sampled')
     chk.notes.append('no-op model: in scope for termination / only-LayoutError / error-precision / one-node-per-variable; '
                      'the content clause is for deinverting models, so for no-op the decoded triples are compared modulo '
